@@ -6,7 +6,7 @@
 From Coq Require Import List Bool NArith Arith Lia.
 Import ListNotations.
 From JS Require Import Model.Base Model.Shape Model.Sem Model.Infer Model.JsonRef Model.Depth
-  Proofs.BaseFacts Proofs.ShapeFacts Proofs.InferFacts.
+  Proofs.BaseFacts Proofs.ShapeFacts Proofs.InferFacts Proofs.InferLaws.
 
 Definition maxd (l : list shape) : nat := fold_right (fun v n => Nat.max (sdepth v) n) 0 l.
 Definition maxdm (c : list (key * shape)) : nat := fold_right (fun kv n => Nat.max (sdepth (snd kv)) n) 0 c.
@@ -187,3 +187,8 @@ Example infer_text_depth_tight :
   let d := JArr [JObj [([97%N], JArr [JNum; JStr])]; JObj [([98%N], JNull)]] in
   exists s, infer_text d = Ok s /\ sdepth s = jdepth d.
 Proof. eexists. split; [vm_compute; reflexivity|reflexivity]. Qed.
+
+(* the value path: a serde_json::Value cannot repeat a member name (its Map is a BTreeMap), and on
+   documents without repeated names the two paths agree (paths_agree) *)
+Corollary infer_value_depth_nodup d s : nodup_keys d = true -> infer_value d = Ok s -> sdepth s <= jdepth d.
+Proof. intros Hn H. rewrite <- (paths_agree d Hn) in H. exact (infer_text_depth d s H). Qed.
